@@ -230,6 +230,7 @@ func runC05(p *Prog, r *Report) {
 	}
 	// ---- R6 liveness of the lock protocol: no self-deadlock, every lock released (shared with C09.R4 / C09.R3) ----
 	c09Reacquire(p, r, "C05.R6", []*types.Named{cb.typ})
+	c09LockOrder(p, r, "C05.R6", []*types.Named{cb.typ})
 	r.Floor("C05.R6", LocksetFor(p, cb.typ).LockOps, 6, "lock acquisitions on call paths from the breaker's entry points")
 	r.Floor("C05.R6", c09Pairing(p, r, "C05.R6", "cbreaker"), 4, "lock acquisitions in package cbreaker")
 	// ---- R1 lock discipline ----
